@@ -252,9 +252,51 @@ def _pt_body(case, ctx):
     return c08.body_swaps(case, ctx)
 
 
+# ------------------------------------------------------------------ a log-density written with array arithmetic
+# For a single parameter `-0.5 * ((theta - m) / s) ** 2` is an array of shape (1,), not a scalar.  The chains took such densities in the
+# pinned tree; a repair of mine (plain-float acceptance statistics) made three of them raise on the first step (found by a third-round
+# hunt agent), so the input class is generated here.  The oracle is the property's: every stored value is the density of its sample.
+@st.composite
+def _one_elem_cases(draw):
+    return {"seed": draw(st.integers(0, 2**31)), "cls": draw(st.sampled_from(["gibbs", "metropolis", "pca", "hmc"])),
+            "m": draw(st.sampled_from([-3.0, 0.0, 2.5])), "s": draw(st.sampled_from([0.3, 1.0, 4.0])), "T": draw(st.sampled_from([1.0, 1.0, 2.0])),
+            "steps": draw(st.sampled_from([1, 3, 30, 130]))}
+
+
+def _one_elem_body(case, ctx):
+    from inference.mcmc import GibbsChain, PcaChain, HamiltonianChain
+    from inference.mcmc.gibbs import MetropolisChain
+
+    m, s, T = case["m"], case["s"], case["T"]
+    post = lambda t: -0.5 * ((np.asarray(t, dtype=float) - m) / s) ** 2          # noqa: E731  (shape (1,) for one parameter)
+    grad = lambda t: -(np.asarray(t, dtype=float) - m) / s**2                    # noqa: E731
+    start = np.array([m + 0.5 * s])
+    kw = {"posterior": post, "start": start, "temperature": T, "display_progress": False}
+    with warnings.catch_warnings():
+        warnings.simplefilter("ignore")
+        with np.errstate(all="ignore"):
+            if case["cls"] == "hmc":
+                ch = HamiltonianChain(grad=grad, **kw)
+            else:
+                ch = {"gibbs": GibbsChain, "metropolis": MetropolisChain, "pca": PcaChain}[case["cls"]](widths=np.array([s]), **kw)
+            ch.advance(case["steps"])
+            smp = np.asarray(ch.get_sample(burn=0), dtype=float)
+            p = np.asarray(ch.get_probabilities(burn=0), dtype=float)
+    if smp.shape != (case["steps"] + 1, 1) or p.shape[0] != smp.shape[0] or p.size != smp.shape[0]:
+        raise Violation(f"lengths:{case['cls']}:one-element-density", f"{case['steps']} steps: samples {smp.shape}, probabilities {p.shape}")
+    want = -0.5 * ((smp[:, 0] - m) / s) ** 2 / T
+    bad = np.nonzero(~(np.abs(p.reshape(-1) - want) <= 1e-12 * (np.abs(want) + 1.0)))[0]
+    if bad.size:
+        raise Violation(f"prob-mismatch:{case['cls']}:one-element-density", f"stored log-probability [{int(bad[0])}] = {p.reshape(-1)[bad[0]]!r}, density of the stored sample / T = {want[bad[0]]!r}")
+    ctx.nontrivial(len(set(smp[:, 0].tolist())) > 1)
+    ctx.event("cls=" + case["cls"])
+
+
 SUBCHECKS = [
     Sub("history", lambda t: histories(), body_history, quick=1600, thorough=20000, shards_quick=16, shards_thorough=16, weight=5,
         rule=">= 1 accepted move after the start; when a clone exists, both samplers stepped"),
     Sub("tempering", lambda t: _pt_cases(), _pt_body, quick=48, thorough=1500, shards_quick=16, shards_thorough=16, weight=60,
         rule=">= 1 accepted and >= 1 rejected exchange with N >= 3"),
+    Sub("one-element-density", lambda t: _one_elem_cases(), _one_elem_body, quick=96, thorough=1200, shards_quick=4, shards_thorough=8, weight=1,
+        rule=">= 1 accepted move"),
 ]
